@@ -58,7 +58,7 @@ func (c *Client) handleStatus() error {
 	cmd := c.findPendingCmdFunc(func(cmd command) bool {
 		switch cmd := cmd.(type) {
 		case *StatusCommand:
-			return cmd.mailbox == data.Mailbox
+			return mailboxNamesEqual(cmd.mailbox, data.Mailbox)
 		case *ListCommand:
 			return cmd.returnStatus && cmd.pendingData != nil && cmd.pendingData.Mailbox == data.Mailbox
 		default:
@@ -75,6 +75,13 @@ func (c *Client) handleStatus() error {
 	}
 
 	return nil
+}
+
+// mailboxNamesEqual checks whether a mailbox name passed by the caller and a
+// name sent by the server designate the same mailbox: INBOX is
+// case-insensitive and is always sent back as "INBOX".
+func mailboxNamesEqual(a, b string) bool {
+	return a == b || (strings.EqualFold(a, "INBOX") && strings.EqualFold(b, "INBOX"))
 }
 
 // StatusCommand is a STATUS command.
